@@ -223,7 +223,7 @@ Qed.
 
 (* insertion sort leaves a strictly increasing list alone *)
 Lemma insert_item_head it l : (match l with [] => True | x :: _ => fst it < fst x end) -> insert_item it l = it :: l.
-Proof. destruct l as [|x r]; cbn [insert_item]; [reflexivity|]. intros H. destruct (fst x <=? fst it) eqn:E; [lia|reflexivity]. Qed.
+Proof. destruct l as [|x r]; cbn [insert_item]; [reflexivity|]. intros H. destruct (fst x <? fst it) eqn:E; [lia|reflexivity]. Qed.
 Lemma sort_items_increasing : forall its prev, increasing prev its -> sort_items its = its.
 Proof.
   induction its as [|it r IH]; intros prev H; [reflexivity|]. cbn [increasing] in H. destruct H as [_ H].
